@@ -87,6 +87,8 @@ ConstTerms ==
         <<"divide", Num("int:1", X), Num("int:3", X)>>, <<"multiply", <<"divide", Num("int:1", X), Num("int:3", X)>>, X>>,
         <<"add", <<"add", X, Num("2", X)>>, <<"add", <<"add", Y, Num("2", Y)>>, <<"add", Num("2", X), Num("2", Y)>>>>>>}
   \cup {<<"add", Z, Num(v, Z)>> : v \in {"1", "0.5", "cplx"}}
+     \* complex constants whose parts are confusable with their neighbours: a zero part of either sign
+  \cup {<<k, Z, Num(v, Z)>> : k \in {"add", "multiply"}, v \in {"cplx_nzim", "cplx_nzre", "cplx_pzim"}}
 
 (*************************** "dags" ****************************************)
 U1 == {"negative", "sqrt", "absolute"}
